@@ -12,7 +12,8 @@ Decided statically (abstract interpretation with symbolic terms + [ALG] normal f
   H-dispatch psd_microporous calls the HK / RY routine with use_cy True exactly for HK-CY / RY-CY and passes the window
              [minimum : maximum + 1] of both arrays
   H-params   shipped adsorbent parameter sets carry the four HK keys
-Not decided: series / multilayer forms (cylinder, sphere, Rege-Yang), minimiser accuracy, monotonicity of widths.
+  H-cylinder(RY) / H-sphere(RY) / H-slit(RY) / H-cylinder   the multilayer and series potentials against the documented equations
+Not decided: where the infinite series are truncated, minimiser accuracy, monotonicity of widths.
 """
 from __future__ import annotations
 
@@ -394,6 +395,163 @@ def r_hk_cylinder(ctx: Ctx, model):
     ctx.floor("HK cylinder truncations", n, 4)
 
 
+def r_ry_cylinder(ctx: Ctx, model):
+    """Rege-Yang cylindrical pore against the equations the method documents (docstring of psd_horvath_kawazoe_ry):
+      M = int[((2L - d_h)/d_g - 1)/2] + 1 concentric layers;  eps_1 = 3/4 pi n_h A_gh/d_0^4 G(a_1),  eps_i = 3/4 pi n_g A_gg/d_g^4 G(a_i),
+      G(a) = 21/32 a^10 sum_k alpha_k (1-a)^(2k) - a^4 sum_k beta_k (1-a)^(2k),  a_1 = d_0/L,  a_i = d_g/(L - d_0 - (i-2) d_g),
+      n_i = pi / asin(d_g / (2 (L - d_0 - (i-1) d_g)))  (1 where the layer is narrower than one molecule),
+      potential = N_A/(RT) sum n_i eps_i / sum n_i.
+    Decided for pores holding 1, 2 and 3 layers and series truncated after 1 and 3 terms (where the code truncates the infinite series
+    is a numerical choice and is not decided).  The population fallback of each layer is taken from the oracle's own condition evaluated
+    at a point that satisfies the path condition of the interpreted path - never from the spelling of the comparison."""
+    ctx.rule("H-cylinder(RY) [ALG]: the Rege-Yang cylinder potential for 1, 2 and 3 layers equals the documented layer equations "
+             "(first layer against the wall with d_0, later layers against the previous guest layer with d_g; populations pi/asin(d_g/width_i); "
+             "population-weighted mean)")
+    import random
+    I = mk(model)
+    patch_constants(I)
+    fi = model.func(f"{PMI}.psd_horvath_kawazoe_ry")
+    captured = {}
+
+    def fake_solver(I, fi_, env, n):
+        captured["fun"] = env["hk_fun"]
+        return [S("Lw0"), S("Lw1"), S("Lw2")]
+    I.overrides[f"{PMI}._solve_hk"] = fake_solver
+    I.overrides[f"{PMI}._solve_hk_cy"] = fake_solver
+    p = Vec([S(f"p{i}") for i in range(3)])
+    nload = Vec([S(f"n{i}") for i in range(3)])
+    T = S("T")
+    a, m = props("a"), {k: v for k, v in props("m").items() if k not in ("liquid_density", "adsorbate_molar_mass")}
+    outs = I.explore(lambda I: I.call_func(fi, [p, nload, T, "cylinder", dict(a), dict(m)], {}, None))
+    if not outs or outs[0].kind != "ok" or "fun" not in captured:
+        raise AnalysisError(f"psd_horvath_kawazoe_ry(cylinder) cannot be interpreted: {outs[:1]}")
+    phi_f = captured["fun"]
+    l = S("l")
+    st = {}
+    orig_int = I.ext.get("builtins.int")
+
+    def int_fork(I, a_, k, n):
+        if _is_symbolic(a_[0]):
+            if "M" not in st:                                   # first truncation of the evaluation: the number of layers
+                st["M"] = I.choose(3, "layers-1") + 1
+                return sp.Integer(st["M"] - 1)
+            if "K" not in st:                                   # later ones: where the series stops (same pore, same K)
+                st["K"] = (1, 3)[I.choose(2, "series-terms")]
+            return sp.Integer(st["K"])
+        return orig_int(I, a_, k, n)
+    I.ext["builtins.int"] = int_fork
+    d_g, d_h = a["molecular_diameter"], m["molecular_diameter"]
+    d0 = (d_g + d_h) / 2
+    nm = sp.Rational(1, 10**9)
+    pa, pm_ = a["polarizability"] * sp.Rational(1, 10**27), m["polarizability"] * sp.Rational(1, 10**27)
+    ca, cm = a["magnetic_susceptibility"] * sp.Rational(1, 10**27), m["magnetic_susceptibility"] * sp.Rational(1, 10**27)
+    A_gg = sp.Rational(3, 2) * S("m_e") * S("c_l")**2 * pa * ca
+    A_gh = 6 * S("m_e") * S("c_l")**2 * pa * pm_ / (pa / ca + pm_ / cm)
+    alpha, beta = [sp.Integer(1)], [sp.Integer(1)]
+    for k in range(1, 4):
+        alpha.append(((sp.Rational(-9, 2) - k) / k)**2 * alpha[-1])
+        beta.append(((sp.Rational(-3, 2) - k) / k)**2 * beta[-1])
+    geo = {"l": l, "d_a": d_g, "d_m": d_h}
+
+    def G(a_, K):
+        b_ = 1 - a_
+        return (sp.Rational(21, 32) * a_**10 * sum(alpha[k] * b_**(2 * k) for k in range(K))
+                - a_**4 * sum(beta[k] * b_**(2 * k) for k in range(K)))
+
+    def witness_point(decisions):
+        """a rational point of (l, d_a, d_m) at which every comparison the path decided has the decided truth value; None = infeasible"""
+        rels = []
+        for lbl, c in decisions:
+            if lbl in ("layers-1", "series-terms"):
+                continue
+            try:
+                r = sp.sympify(lbl, locals=geo)
+            except Exception as e:
+                raise AnalysisError(f"RY cylinder: path condition '{lbl}' cannot be read: {e}")
+            if not isinstance(r, sp.logic.boolalg.Boolean) or r.free_symbols - set(geo.values()):
+                raise AnalysisError(f"RY cylinder: path condition '{lbl}' is not a comparison over the pore geometry")
+            if not isinstance(r, (sp.Le, sp.Lt, sp.Ge, sp.Gt)):
+                raise AnalysisError(f"RY cylinder: path condition '{lbl}' is not an ordering comparison")
+            rels.append((sp.lambdify([l, d_g, d_h], r.lhs - r.rhs, "math"), isinstance(r, (sp.Le, sp.Lt)), c == 0))
+        rnd = random.Random(17)
+        for _ in range(20000):
+            vals = (rnd.randint(30, 400), rnd.randint(20, 60), rnd.randint(20, 60))
+            fl = [v / 100 for v in vals]
+            ok = True
+            for f, less, want_true in rels:
+                d = f(*fl)
+                if abs(d) < 1e-6 or ((d < 0) == less) != want_true:
+                    ok = False
+                    break
+            if ok:
+                return {l: sp.Rational(vals[0], 100), d_g: sp.Rational(vals[1], 100), d_h: sp.Rational(vals[2], 100)}
+        return None
+    npaths, seen = 0, set()
+    for oc in I.explore(lambda I: (st.clear(), I.call_value(phi_f, [l], {}, None), dict(st))[1:]):
+        if oc.kind != "ok":
+            raise AnalysisError(f"RY cylinder potential closure cannot be evaluated: {oc}")
+        phi, info = oc.value
+        M, K = info.get("M"), info.get("K")
+        if M is None or K is None:
+            raise AnalysisError("RY cylinder: the layer count / series truncation was not reached through int(...)")
+        pt = witness_point(oc.decisions)
+        if pt is None:
+            continue                                            # e.g. outer layer too narrow for one molecule but an inner one not
+        npaths += 1
+        width = lambda i: 2 * (l - d0 - (i - 1) * d_g)
+        flags = tuple(bool((d_g <= width(i)).subs(pt)) for i in range(1, M + 1))
+        ni = [sp.pi / sp.asin(d_g / width(i)) if flags[i - 1] else sp.Integer(1) for i in range(1, M + 1)]
+        eps = [sp.Rational(3, 4) * sp.pi * m["surface_density"] * A_gh / (d0 * nm)**4 * G(d0 / l, K)]
+        for i in range(2, M + 1):
+            eps.append(sp.Rational(3, 4) * sp.pi * a["surface_density"] * A_gg / (d_g * nm)**4 * G(d_g / (l - d0 - (i - 2) * d_g), K))
+        want = (S("N_A") / (S("R") * T)) * sum(n_ * e_ for n_, e_ in zip(ni, eps)) / sum(ni)
+        dom = {str(k_): (v_ - sp.Rational(1, 1000), v_ + sp.Rational(1, 1000)) for k_, v_ in pt.items()}
+        verdict, wit = _numeric_nonzero(phi, want, pt) or _fast_zero(phi - want) or decide_zero(phi - want, symbols_domain=dom)
+        seen.add((M, K, flags))
+        ctx.ob(verdict == "zero", Finding("C17.H-cylinder", fi.where, f"ry-cylinder|layers={M}|terms={K}|populated={flags}|potential!=documented-equation",
+                                          f"Rege-Yang cylinder potential with {M} layer(s), series truncated after {K} term(s), differs from the documented "
+                                          f"equations (eps_1 with d_0 and a_1 = d_0/L, eps_i with d_g and a_i = d_g/(L - d_0 - (i-2) d_g), n_i = pi/asin(d_g/width_i) "
+                                          f"or 1 for a layer narrower than a molecule, population-weighted mean); witness {wit}"),
+               nontrivial_key=("ry-cyl", M, K, flags), sample={"rule": "H-cylinder(RY)", "layers": M, "terms": K, "populated": list(flags)})
+    need = {(M, K, (True,) * M) for M in (1, 2, 3) for K in (1, 3)}
+    ctx.ob(need <= seen, Finding("C17.H-cylinder", fi.where, "ry-cylinder|cases",
+                                 f"fully populated pores with 1, 2, 3 layers were not all reached: missing {sorted(need - seen)}"), nontrivial_key=("ry-cyl", "cases"))
+    ctx.floor("RY cylinder feasible layer / truncation / population cases", npaths, 12)
+
+
+def _numeric_nonzero(got, want, pt):
+    """('nonzero', witness) when the two expressions differ at one rational point (given values for some symbols, fixed distinct rationals
+    for the others), evaluated with 60 significant digits; None = equal there, to be decided symbolically"""
+    import mpmath
+    try:
+        syms = sorted((got.free_symbols | want.free_symbols) - set(pt), key=lambda s_: s_.name)
+        full = dict(pt)
+        for j, s_ in enumerate(syms):
+            full[s_] = sp.Rational(7 + 3 * j, 11 + 2 * j)
+        order = sorted(full, key=lambda s_: s_.name)
+        with mpmath.workdps(60):
+            vals = [mpmath.mpf(full[s_].p) / mpmath.mpf(full[s_].q) for s_ in order]
+            g = sp.lambdify(order, got, "mpmath")(*vals)
+            w = sp.lambdify(order, want, "mpmath")(*vals)
+            if abs(g - w) > mpmath.mpf(10)**-40 * (abs(g) + abs(w)):
+                return "nonzero", ({str(k_): str(v_) for k_, v_ in full.items()}, f"{mpmath.nstr(g, 10)} != {mpmath.nstr(w, 10)}")
+    except Exception:
+        pass
+    return None
+
+
+def _fast_zero(expr):
+    """('zero', None) when the numerator of the expression over a common denominator expands to 0 (transcendental sub-terms as atoms);
+    None = undecided here, the caller falls back to decide_zero (which also finds witnesses)"""
+    try:
+        num, _ = sp.fraction(sp.together(expr))
+        if sp.expand(num) == 0:
+            return "zero", None
+    except Exception:
+        pass
+    return None
+
+
 def _is_symbolic(v):
     return isinstance(v, sp.Basic) and not v.is_number
 
@@ -559,6 +717,7 @@ def run(ctx: Ctx):
     r_ry_sphere(ctx, model)
     r_ry_slit(ctx, model)
     r_hk_cylinder(ctx, model)
+    r_ry_cylinder(ctx, model)
     r_solver(ctx, model)
     r_dispatch(ctx, model)
     r_params(ctx, model)
@@ -571,13 +730,13 @@ def run(ctx: Ctx):
 
 META = {
     "technique": "abstract interpretation with symbolic terms (captured potential closures vs published / documented equations: "
-                 "HK slit and sphere, Rege-Yang slit and sphere; solver objective/bounds per point, result transforms) + dispatc"
+                 "HK slit, cylinder and sphere, Rege-Yang slit, cylinder and sphere; solver objective/bounds per point, result transforms) + dispatc"
                  "h table",
     "level_text": "Static: the slit potential closure is extracted by interpreting psd_horvath_kawazoe symbolically and compared "
                   "algebraically with the published Horvath-Kawazoe equation (all parameters symbolic, including unit factors and "
                   "Kirkwood-Mueller constants); both solvers are interpreted on symbolic pressure vectors with the optimiser "
                   "summarised, checking objective, bounds and one-width-per-point over all stop patterns; the result transforms "
                   "and the psd_microporous dispatch are checked for every model/geometry.",
-    "level_note": "Trusted: bounded scalar minimiser; sympy. Not decided: the series (cylinder/sphere) and the Rege-Yang cylinder / sphere "
-                  "potentials against their publications (the RY slit is compared with the documented equations), minimiser accuracy, monotonicity of widths.",
+    "level_note": "Trusted: bounded scalar minimiser; sympy. Not decided: where the infinite series of the cylinder potentials are truncated (terms up to k = 3 "
+                  "are compared), pores holding more than three Rege-Yang layers, minimiser accuracy, monotonicity of widths.",
 }
